@@ -148,6 +148,7 @@ type Exec struct {
 	clock        *Term
 	timers       []timerRec
 	pools        map[*Value][]Value // sync.Pool contents
+	topicCloseFails bool // pubsub model: Topic.Close reports outstanding subscriptions
 	seals        []*sealRec
 	hashFacts    []hashFact
 	hashApps     []hashFact
